@@ -41,6 +41,7 @@ FAMILIES: dict[str, dict] = {
     "stack_backtrack": {"grammars": ['a = { PUSH("x") ~ ((POP)? ~ "z" | PEEK) }', 'a = { PUSH("x") ~ PUSH("y") ~ (POP ~ POP ~ "z" | PEEK) }', 'a = { PUSH("x") ~ (POP_ALL ~ "z" | PEEK ~ "y") }', 'a = { PUSH("x") ~ !(POP ~ "z") ~ &(DROP) ~ PEEK }', 'a = { PUSH("x") ~ (PUSH("y") ~ "z")* ~ PEEK_ALL }', 'a = { PUSH("x") ~ (DROP ~ "z")? ~ (PUSH("y") ~ "z" | PEEK_ALL) }'], "alphabet": "xyz", "n": 5},
     "optimizer_skip": {"grammars": ['s = @{ (!"a" ~ ANY)* }\na = @{ (!s ~ ANY)* ~ "x" }', 'r = @{ (!("b" | "ab") ~ ANY)* }\na = { r ~ ANY* }', 'nl = _{ "\\n" | "\\r\\n" }\nr = @{ (!nl ~ ANY)* }\na = { r ~ nl? ~ r }', 'WHITESPACE = _{ " " }\na = { (!"b" ~ ANY)* ~ "b"? }', 'a = { (!("x" ~ "y") ~ ANY)* ~ ANY* }', 'WHITESPACE = _{ " " }\nr = @{ (!"b" ~ ANY)* }\na = { r ~ "b" }'], "alphabet": "ab \n\rxy", "n": 4},
     "optimizer_squash": {"grammars": ['y = { "y" }\nb = _{ "x" | y }\na = { (b | "z")+ }', 'a = { ("x" | "xy") ~ "y"? ~ "z" }', 'a = { (^"xy" | "xyz") ~ "z"? }', 'a = { ("xy" | "x" | \'y\'..\'z\') ~ "z" }', 'b = _{ "x" | "xy" }\na = { b ~ "y" }', 'a = { (ASCII_DIGIT | "x" | "xy")+ }'], "alphabet": "xyzXY1", "n": 4},
+    "optimizer_ranges": {"grammars": ["a = { ('w'..'z' | 'x'..'y')+ }", "a = { (ASCII_ALPHANUMERIC | 'x'..'y')+ ~ \"!\"? }", "a = { ('x'..'y' | 'w'..'z' | \"!\")+ }"], "alphabet": "wxyz!", "n": 3},
     "optimizer_inline": {"grammars": ['c = { "x" }\ns = _{ c ~ "y" }\na = { #tt=s ~ s? }', 'c = { "x" }\na = { #tt=(c)+ }', 's = _{ "x" ~ s? ~ "y" }\na = { s }', 'WHITESPACE = _{ " " }\ns = _{ "x" ~ "y" }\na = @{ s ~ s }'], "alphabet": "xy ", "n": 5},
     "optimizer_unicode": {"grammars": ['a = { (LETTER | "_") ~ (LETTER | ASCII_DIGIT | "_")* }', 'a = { (HAN | "x" | "xy")+ }'], "alphabet": "x_1\u00e9\u4e00", "n": 3},
     "comment_only": {"grammars": ['COMMENT = _{ "#" ~ (!"!" ~ ANY)* ~ "!" }\na = { "x" ~ "y" }', 'COMMENT = _{ "#" ~ (!"!" ~ ANY)* ~ "!" }\nb = { "x" }\na = { b* ~ "y" }'], "alphabet": "xy#!", "n": 6},
@@ -58,7 +59,7 @@ CLASS_FAMILY = {
     "Push": ["push", "stack_backtrack"], "PushLiteral": ["push"], "Peek": ["push", "stack_backtrack"], "Pop": ["push", "stack_backtrack"],
     "PeekAll": ["push", "stack_backtrack"], "PopAll": ["push", "stack_backtrack"], "PeekSlice": ["push"], "Drop": ["push", "stack_backtrack"],
     "Stack": ["stack_backtrack"], "generate": ["trivia", "sequence", "repeat"],
-    "SkipUntil": ["optimizer_skip"], "skip": ["optimizer_skip"], "OptimizedChoice": ["optimizer_squash", "optimizer_unicode"], "squash_choice": ["optimizer_squash", "optimizer_unicode"], "lazy_patterns_compile": ["optimizer_unicode"],
+    "SkipUntil": ["optimizer_skip"], "skip": ["optimizer_skip"], "OptimizedChoice": ["optimizer_squash", "optimizer_ranges", "optimizer_unicode"], "squash_choice": ["optimizer_squash", "optimizer_ranges", "optimizer_unicode"], "lazy_patterns_compile": ["optimizer_unicode"],
     "inline": ["optimizer_inline"], "unroll": ["repeat_exact", "repeat_min", "repeat_max", "repeat_minmax", "repeat_once", "optimizer_inline"],
     "skip_rule": ["comment_only", "trivia"], "RegexExpression": ["optimizer_squash"],
 }
